@@ -201,26 +201,28 @@ void PoolRun::submit_task(int id) {
   vrt_event("accept %d", id);
 }
 
+// One-time initialisation of function-local statics and thread-local machinery outside the
+// controlled section.  The warm-up pool is leaked on purpose (never stopped, never destroyed): a
+// mutated stop() must not be able to hang the harness before the first controlled run; its two
+// workers stay parked on the empty global queue for the life of the process.
 static void warm_up() {
   static bool done = false;
   if (done) return;
   done = true;
   (void)InplaceExecutor::instance();
   (void)AlwaysUseNewThreadExecutor::instance();
-  ThreadPoolExecutor p;
-  p.set_worker_number(2);
-  p.set_local_capacity(2);
-  p.set_global_capacity(4);
-  p.set_enable_work_stealing(true);
-  p.set_balance_interval(std::chrono::milliseconds(1));
-  p.start();
-  auto f = p.execute([&p] {
-    p.submit([] {});
+  auto* p = new ThreadPoolExecutor;
+  p->set_worker_number(2);
+  p->set_local_capacity(2);
+  p->set_global_capacity(4);
+  p->set_enable_work_stealing(true);
+  p->start();
+  auto f = p->execute([p] {
+    p->submit([] {});
     return 1;
   });
   f.get();
   InplaceExecutor::instance().execute([] { return 0; }).get();
-  p.stop();
 }
 
 static void run_pool(uint64_t seed, bool hold) {
